@@ -8,8 +8,13 @@ CONSTANTS
   AllowVSkip = FALSE
   AllowReturn = TRUE
   AllowMoved = FALSE
+  AllowHost = FALSE
+  AllowRename = FALSE
   MaxFunctions = 1
   Stepwise = FALSE
+  AliasRecheck = TRUE
+  CallableWalks = 2
+  RenameScopeCheck = TRUE
   COrder = FALSE
   Orders <- Perm3
   KnownShapes <- Known_any
